@@ -35,9 +35,26 @@ func Render(v interface{}) string {
 		return "nil"
 	}
 	var b strings.Builder
+	if nc, ok := v.(NoCap); ok {
+		if nc.V == nil {
+			return "nil"
+		}
+		noCap = true
+		render(&b, reflect.ValueOf(nc.V), 0)
+		noCap = false
+		return b.String()
+	}
 	render(&b, reflect.ValueOf(v), 0)
 	return b.String()
 }
+
+// NoCap wraps a value whose slice capacities are unspecified by the language (e.g. []byte(s)):
+// slices inside it are rendered with their length only.
+type NoCap struct{ V interface{} }
+
+// rendering is single-threaded per process side (trace hooks are called by one goroutine at a time
+// in the programs that use NoCap)
+var noCap bool
 
 func render(b *strings.Builder, v reflect.Value, depth int) {
 	if !v.IsValid() {
@@ -83,7 +100,11 @@ func render(b *strings.Builder, v reflect.Value, depth int) {
 			b.WriteString("slice:nil")
 			return
 		}
-		fmt.Fprintf(b, "slice[%d/%d]{", v.Len(), v.Cap())
+		if noCap {
+			fmt.Fprintf(b, "slice[%d]{", v.Len())
+		} else {
+			fmt.Fprintf(b, "slice[%d/%d]{", v.Len(), v.Cap())
+		}
 		for i := 0; i < v.Len(); i++ {
 			if i > 0 {
 				b.WriteByte(' ')
